@@ -36,6 +36,10 @@ func runC16(c *Ctx) {
 	runC16rest(c)
 	purlFallbackOnlyWithoutHashMatches(c)
 	purlCriterionNeedsPurl(c)
+	// a lookup that filters the list's own slice in place (nl.Nodes[:0]) returns the right nodes
+	// once and leaves a list in which later lookups miss nodes that were there
+	operandsUntouched(c, "lookups-leave-the-list-unchanged", "the lookup functions neither write nor append onto memory reachable from their receiver or arguments (origin sets over SSA, callee summaries substituted): the next lookup sees the same list",
+		"sbom.(*NodeList).GetNodeByID", "sbom.(*NodeList).GetNodesByName", "sbom.(*NodeList).GetNodesByIdentifier", "sbom.(*NodeList).GetNodesByPurlType", "sbom.(*NodeList).GetRootNodes", "sbom.(*NodeList).GetMatchingNode")
 	compositeKeysSeparated(c, "composite-key-separated", pkgFilter(c.reachDecls("composite-key-separated", "sbom.(*NodeList).GetMatchingNode"), "sbom."))
 	// "precisely the nodes satisfying the criterion" and "does not depend on the order of nodes":
 	// the loops of the lookup and matching functions skip an element only for the criterion itself
